@@ -1396,8 +1396,26 @@ func pqScenarios() []*sched.Scenario {
 			}
 		}
 	}}
+	shrinkScenario := &sched.Scenario{Name: "shrinkingmap/shrink-vs-set-delete", Run: func() {
+		m := shrinkingmap.New[int, int]()
+		m.Set(1, 1)
+		m.Set(2, 2)
+		m.Delete(2)
+		m.Set(2, 2)
+		vrt.Par(
+			func() { m.Shrink() },
+			func() { m.Set(3, 3); m.Delete(1) },
+			func() { m.Set(4, 4) },
+		)
+		for k, want := range map[int]bool{1: false, 2: true, 3: true, 4: true} {
+			if _, ok := m.Get(k); ok != want {
+				vrt.Fail("shrink-observable", "after Shrink() ran concurrently with Set(3), Delete(1), Set(4): key %d present=%v, expected %v (size %d)", k, ok, want, m.Size())
+			}
+		}
+	}}
 	return []*sched.Scenario{
 		storageScenario,
+		shrinkScenario,
 		{Name: "priorityqueue/handle-vs-2pops", Run: func() {
 			w := mk(3)
 			vrt.Par(func() { w.handles[1]() }, func() { pop(w); pop(w) })
